@@ -287,8 +287,8 @@ func TestVerifChainRules(t *testing.T) {
 	}
 }
 
-// TestVerifUnitsOverflow (C12, "arithmetic overflow rejected"): rule costs are multiples of 2^60 and every other storage
-// cost is zero, so the three storage dimensions are exact multiples of 2^60 and overflow uint64 exactly when the sum
+// TestVerifUnitsOverflow (C12, "arithmetic overflow rejected", per-key and per-chunk costs incl. chunk suffix 0): rule
+// costs are multiples of 2^60, so the three storage dimensions are exact multiples of 2^60 and overflow uint64 exactly when the sum
 // reaches 16 such units.  One "unitsrow" line per real Transaction.Units call, logged in units of 2^60.
 func TestVerifUnitsOverflow(t *testing.T) {
 	skipUnlessVerif(t)
@@ -305,7 +305,11 @@ func TestVerifUnitsOverflow(t *testing.T) {
 	const unit = uint64(1) << 60
 	for i := 0; i < n; i++ {
 		scaled := []int64{int64(r.Intn(4)), int64(r.Intn(4)), int64(r.Intn(3))} // value read / allocate / write cost per chunk
-		w.rules.StorageKeyReadUnits, w.rules.StorageKeyAllocateUnits, w.rules.StorageKeyWriteUnits = 0, 0, 0
+		// per-key costs (also multiples of 2^60): every declared key pays them whatever its chunk suffix is, 0 included
+		keycost := []int64{int64(r.Intn(2)), int64(r.Intn(2)), int64(r.Intn(2))}
+		w.rules.StorageKeyReadUnits = uint64(keycost[0]) * unit
+		w.rules.StorageKeyAllocateUnits = uint64(keycost[1]) * unit
+		w.rules.StorageKeyWriteUnits = uint64(keycost[2]) * unit
 		w.rules.StorageValueReadUnits = uint64(scaled[0]) * unit
 		w.rules.StorageValueAllocateUnits = uint64(scaled[1]) * unit
 		w.rules.StorageValueWriteUnits = uint64(scaled[2]) * unit
@@ -317,7 +321,7 @@ func TestVerifUnitsOverflow(t *testing.T) {
 			if r.Intn(3) == 0 {
 				continue
 			}
-			c := uint16(1 + r.Intn(3))
+			c := uint16(r.Intn(4))
 			a.Keys = append(a.Keys, vKey{Name: k, Perm: 7, Chunks: c})
 			total += int64(c)
 			chs = append(chs, int64(c))
@@ -336,7 +340,7 @@ func TestVerifUnitsOverflow(t *testing.T) {
 				got[d] = int64(units[2+d] / unit)
 			}
 		}
-		rec.add(map[string]any{"ev": "unitsrow", "chunks": append([]int64{1}, chs...), "cost": scaled, "err": uerr != nil, "units": got})
+		rec.add(map[string]any{"ev": "unitsrow", "chunks": append([]int64{1}, chs...), "cost": scaled, "keycost": keycost, "err": uerr != nil, "units": got})
 	}
 	rec.dump(t, "ov00000")
 }
